@@ -208,9 +208,9 @@ def gen_layers(rng, n, p_hook=0.8, faults=True):
             hooks['testSetUp'] = ['ok']
         if rng.random() < 0.6:
             hooks['testTearDown'] = ['ok']
-        kind = rng.choice(['class', 'class', 'instance', 'instance', 'falsy', 'alias'])
+        kind = rng.choice(['class', 'class', 'instance', 'instance', 'falsy', 'alias', 'method', 'method'])
         if not names[i].isalnum():
-            kind = rng.choice(['instance', 'falsy'])
+            kind = rng.choice(['instance', 'falsy', 'method'])
         layers.append({'name': names[i], 'bases': bases, 'kind': kind, 'hooks': hooks})
     return layers
 
